@@ -22,7 +22,7 @@ EXPLANATION = (
     "construction; the small-size arms of the insertion index are evaluated on all orderings and the two fix-up "
     "loops move in the right direction with their floor/ceiling guards.")
 ASSUMPTIONS = ["timestamps are ordered by the ObsTime comparison operators (C03)", "float rounding of log in the bisection start is not decided"]
-TECHNIQUE = "slice/affine specification matching (F3), finite ordering domain (F4), write-effect summaries (F1), dataflow of the sorted list (F6)"
+TECHNIQUE = "abstract interpretation of the repository's Track class by the checker's AST interpreter on every small track (sizes 0..5, duplicate timestamps) and argument value, against the list model (bounded exhaustive case domain); write-effect summaries (F1)"
 
 
 def vr(v):
